@@ -134,6 +134,11 @@ func Analyse(p *load.Prog) (*Result, error) {
 					rt = tup.At(0).Type()
 				}
 				if !isHashHash(rt) {
+					// a one-shot digest function of a hash package (sha256.Sum256): a direct use, linked by construction
+					if oc := c.Common().StaticCallee(); oc != nil && oc.Pkg != nil && !p.InModule(oc) &&
+						(strings.HasPrefix(oc.Pkg.Pkg.Path(), "crypto/sha") || oc.Pkg.Pkg.Path() == "crypto/md5") && strings.HasPrefix(oc.Name(), "Sum") {
+						res.Lookups = append(res.Lookups, Lookup{Fn: fn, Pos: p.Pos(c.Pos()), HashID: -1, Kind: "direct", Linked: true, Callee: oc.String(), Registrar: oc.Pkg.Pkg.Path()})
+					}
 					continue
 				}
 				cal := c.Common().StaticCallee()
